@@ -117,6 +117,9 @@ pub fn shrink(def: &CheckDef, tier: &str, case_seed: u64, start: Repro, budget_s
             if t0.elapsed().as_secs_f64() > budget_s * 0.7 {
                 break 'outer;
             }
+            if e.0.first().map(|k| def.no_shrink.contains(&k.as_str())).unwrap_or(false) {
+                continue;
+            }
             let Some(nv) = apply(&v, e) else { continue };
             let Ok(sc) = serde_json::from_value::<Scenario>(nv) else { continue };
             if sc.channels.is_empty() || sc.starts.is_empty() && best.scenario.starts.len() > 0 {
